@@ -378,7 +378,9 @@ def run(model: RepoModel, rep, tier: str):
                 key = f"{FILE}::{c_.name}.flatten_item_when_saving::column `{col}` stamped with the save key"
 
                 def always_true(t) -> bool:
-                    # `not hasattr(<the row dict>, "...")`: a dict has no such attribute, the test is constantly true
+                    # a constant true test, or `not hasattr(<the row dict>, "...")`: a dict has no such attribute, the test is constantly true
+                    if isinstance(t, ast.Constant) and t.value:
+                        return True
                     return isinstance(t, ast.UnaryOp) and isinstance(t.op, ast.Not) and isinstance(t.operand, ast.Call) \
                         and call_name(t.operand) == "hasattr" and t.operand.args and isinstance(t.operand.args[0], ast.Name) and t.operand.args[0].id == dvar
                 real = [t for t in conds if not always_true(t)]
@@ -554,7 +556,8 @@ def run(model: RepoModel, rep, tier: str):
                 if ok:
                     st = cfg.stmt[rn]
                     brs = cfg.controlling_branches(rn)
-                    guarded = any(lab == "T" and _is_minus_one_test(t.test) for t, lab in brs if isinstance(t, ast.If))
+                    guarded = any((truth and _is_minus_one_test(atom)) or (not truth and _is_minus_one_test(atom, ne=True))
+                                  for atom, truth in cfg.conditions_at(rn))
                     if not guarded:
                         problems.append("index entries are re-pointed without the `== -1` (active) guard")
             if not ok:
@@ -890,8 +893,9 @@ def _iter_root(it):
     return cur
 
 
-def _is_minus_one_test(t) -> bool:
-    if isinstance(t, ast.Compare) and len(t.ops) == 1 and isinstance(t.ops[0], ast.Eq):
+def _is_minus_one_test(t, ne: bool = False) -> bool:
+    """`x == -1` (or, with ne=True, `x != -1`), operands in either order"""
+    if isinstance(t, ast.Compare) and len(t.ops) == 1 and isinstance(t.ops[0], ast.NotEq if ne else ast.Eq):
         for side in (t.left, t.comparators[0]):
             if isinstance(side, ast.UnaryOp) and isinstance(side.op, ast.USub) and is_const(side.operand, 1):
                 return True
